@@ -6,7 +6,7 @@ package replicator
 // verification harness so that quiescence is decided from state.
 type VerifStats struct {
 	Added, Fetching, Fetched int
-	Queue, Buffer            int
+	Queue, Buffer, Failed    int
 	InProgress               int64
 }
 
@@ -15,7 +15,7 @@ func (r *replicator) VerifStats() VerifStats {
 	r.muProcess.RLock()
 	defer r.muProcess.RUnlock()
 
-	s := VerifStats{Queue: r.queue.Len(), InProgress: r.taskInProgress}
+	s := VerifStats{Queue: r.queue.Len(), InProgress: r.taskInProgress, Failed: len(r.failed)}
 	for _, k := range r.tasks {
 		switch k {
 		case stateAdded:
